@@ -163,6 +163,16 @@ func c10HardCert(c *Ctx, m *shimModel) {
 			}
 		}
 	}
+	hardCertHeld(c, m, fn, "R1.hardcert")
+	c.Floor("R1.hardcert", nPresent, 1, "already-present return")
+	c.Floor("R1.hardcert", nAbsent, 1, "key-not-found return")
+}
+
+// hardCertHeld: AddHardCert reports success only when the certificate is already in the in-memory table or was
+// inserted on this path (otherwise a "registered" hardware certificate is neither listed nor usable).
+func hardCertHeld(c *Ctx, m *shimModel, fn *ssa.Function, rule string) {
+	w := c.w
+	f := w.Facts(fn)
 	// success means: already present, or inserted on this path
 	var inserts []ssa.Instruction
 	for _, a := range w.FieldAccesses(m.Server, m.fCerts) {
@@ -188,10 +198,8 @@ func c10HardCert(c *Ctx, m *shimModel) {
 				inserted = true
 			}
 		}
-		c.Check(present || inserted, "R1.hardcert", "AddHardCert|success means held", w.Pos(r.Pos()), "already present or inserted on this path", "AddHardCert can report success although the certificate is neither already held nor inserted: it will not be listed or usable")
+		c.Check(present || inserted, rule, "AddHardCert|success means held", w.Pos(r.Pos()), "already present or inserted on this path", "AddHardCert can report success although the certificate is neither already held nor inserted: it will not be listed or usable")
 	}
-	c.Floor("R1.hardcert", nPresent, 1, "already-present return")
-	c.Floor("R1.hardcert", nAbsent, 1, "key-not-found return")
 }
 
 type passRow struct {
